@@ -416,6 +416,38 @@ impl Prop for C03 {
                 }
             },
         ));
+        v.push(Scope::new(
+            "combs",
+            "combs of 2..8 teeth on one base line, tooth heights increasing, decreasing, alternating; base at the bottom or the top; teeth one or two columns apart (drawings that need many merge passes)",
+            |f| {
+                for n in 2..=8usize {
+                    for pattern in 0..3 {
+                        for gap in 1..=2usize {
+                            for top in 0..2 {
+                                let heights: Vec<usize> = (0..n).map(|i| match pattern { 0 => i + 1, 1 => n - i, _ => 1 + (i % 2) * 2 }).collect();
+                                let maxh = *heights.iter().max().unwrap();
+                                let mut cv = shapes::Canvas::new();
+                                for (i, h) in heights.iter().enumerate() {
+                                    let x = (i * (gap + 1)) as i32;
+                                    for k in 0..*h {
+                                        let y = if top == 1 { 1 + k as i32 } else { (maxh - 1 - k) as i32 };
+                                        cv.put(x, y, '|');
+                                    }
+                                    let by = if top == 1 { 0 } else { maxh as i32 };
+                                    cv.put(x, by, '+');
+                                    if i + 1 < n {
+                                        for g in 1..=gap {
+                                            cv.put(x + g as i32, by, '-');
+                                        }
+                                    }
+                                }
+                                f(Case::s(cv.render()));
+                            }
+                        }
+                    }
+                }
+            },
+        ));
         let fd = if tier == Tier::Quick { 2 } else { 3 };
         v.push(Scope::new(
             &format!("frame-defects-{}", fd),
